@@ -202,7 +202,7 @@ func genWrap(seed uint64, faulty bool) *Scenario {
 	for i, n := 0, g.in(1, 6); i < n; i++ {
 		switch {
 		case strings.HasPrefix(w.Kind, "blank") && g.pct(45):
-			k := []string{"set-static", "set-static", "set-watch", "set-fail", "bdone", "bvalue"}[g.r.IntN(6)]
+			k := []string{"set-static", "set-static", "set-watch", "set-fail", "set-watch-fail", "bdone", "bvalue"}[g.r.IntN(7)]
 			c.Ops = append(c.Ops, Op{K: k, N: int(g.id())})
 		case g.pct(15):
 			c.Ops = append(c.Ops, Op{K: "sleep", D: int64(g.in(1, 300)) * 1e6})
@@ -577,6 +577,27 @@ func (r *wrapRun) wrapped(c *ClientSpec, blank *sourcewrap.Blank, inner *wInnerW
 				if got := r.W.View().Stamp; got != id {
 					r.fail("C20.blank", "SetSource returned nil but the view holds stamp %d, not %d", got, id)
 				}
+			}
+		case "set-watch-fail":
+			// a watching source whose Value fails: nothing is installed, the Blank
+			// keeps its slot and its previous inner source
+			iw := &wInnerWatch{wInner: wInner{id: id, own: "Stamp", failVal: true}}
+			var src dials.Source = iw
+			if len(names) > 0 {
+				src = sourcewrap.NewTransformingSource(iw, mg...)
+			}
+			err := blank.SetSource(r.ctx, src)
+			r.probes["setsource-watching-value-fails"]++
+			switch {
+			case r.state == "watching":
+				if err == nil {
+					r.fail("C20.blank", "SetSource replaced a watching inner source")
+				}
+			case err == nil || !errors.Is(err, errInner):
+				r.fail("C20.error-swallowed", "SetSource of a watching source whose Value fails returned %v", err)
+			}
+			if iw.wa != nil {
+				r.fail("C20.blank", "Watch was called on a source whose Value had failed")
 			}
 		case "set-watch":
 			iw := &wInnerWatch{wInner: wInner{id: id, own: "Stamp"}}
